@@ -6,8 +6,4 @@ import (
 	"verif/sim/core"
 )
 
-func TestRun(t *testing.T) {
-	core.Main(t, map[string]core.EngineFunc{
-		"C11": RunC11,
-	})
-}
+func TestRun(t *testing.T) { core.MainRegistered(t) }
